@@ -50,6 +50,7 @@ var c27Allowed = map[string]string{
 
 func runC27(c *core.Check) {
 	prog := c.Load("./tpl", "./tpl/cl", "./tpl/token", "./token", "./tpl/matcher")
+	deadStateRule(c, prog.Pkg("./tpl"), prog.Pkg("./tpl/cl")) // no unexported field is read without a writer
 
 	// ---------- (1) index bounds
 	c.Floor("index-bound", 4)
